@@ -1175,3 +1175,380 @@ def getline_result_rule(ctx, rid, scope, minimum):
     if n < minimum:
         from facts import AnalysisBroken
         raise AnalysisBroken('%s: only %d getline calls found' % (rid, n))
+
+
+def _int_range(w, sg):
+    return (-(1 << (w - 1)), (1 << (w - 1)) - 1) if sg else (0, (1 << w) - 1)
+
+
+def compare_domain_rule(ctx, rid, scope, minimum):
+    """a variable is compared with a constant in the domain of its own type: where a function compares a value read from a
+    variable, member, element or call result (seen through the implicit conversions the compiler adds) with an integer
+    constant, the constant lies inside the value range of the integer type the value has BEFORE promotion.  A symbol kept in
+    a signed char never equals 0xA9 or 0xAA, a byte never equals 256: such a comparison has one outcome for all inputs, the
+    branch behind it is dead, and what it was meant to catch passes."""
+    fb = ctx.fb
+    seen = set()
+    n = 0
+    for fn in fb.functions:
+        if not scope(fn) or not fn.nodes or (fn.name, fn.sig) in seen:
+            continue
+        seen.add((fn.name, fn.sig))
+        for x, v in sorted(fn.nodes.items()):
+            if v['k'] != 'BinaryOperator' or v.get('op') not in ('==', '!=', '<', '<=', '>', '>='):
+                continue
+            for a, b in ((v['lhs'], v['rhs']), (v['rhs'], v['lhs'])):
+                c = fn.val(b)
+                if c is None or fn.nodes[fn.strip(b, casts=True)].get('k') == 'DeclRefExpr' and fn.nodes[fn.strip(b, casts=True)].get('rk') in ('local', 'param'):
+                    continue
+                # the operand before the promotions: strip parentheses and implicit integral casts only
+                y = a
+                while True:
+                    yv = fn.nodes[y]
+                    if yv['k'] == 'ParenExpr' and yv.get('ch'):
+                        y = yv['ch'][0]
+                    elif yv['k'] == 'ImplicitCastExpr' and yv.get('ck') in ('IntegralCast', 'LValueToRValue', 'NoOp') and yv.get('ch'):
+                        y = yv['ch'][0]
+                    else:
+                        break
+                yv = fn.nodes[y]
+                if yv['k'] not in ('DeclRefExpr', 'MemberExpr', 'ArraySubscriptExpr', 'CallExpr', 'CXXMemberCallExpr', 'CXXOperatorCallExpr', 'UnaryOperator'):
+                    continue
+                if yv['k'] == 'UnaryOperator' and yv.get('op') != '*':
+                    continue
+                if yv.get('rk') == 'enumerator' or yv.get('bool') or not yv.get('w') or yv.get('ptr') or yv.get('w') > 32:
+                    continue
+                t = yv.get('t') or ''
+                if 'float' in t or 'double' in t:
+                    continue
+                lo, hi = _int_range(yv['w'], yv.get('sg'))
+                n += 1
+                inside = lo <= c <= hi
+                # ordering tests against a bound just outside the range (x <= 255, x < 256) are range documentation, not dead code
+                if not inside and v['op'] not in ('==', '!='):
+                    continue
+                if inside:
+                    ctx.touch(fn)
+                ctx.ob(rid, fn, x, inside, 'comparison %s' % fn.key(x)[:70],
+                       'the constant %d lies in the range %d..%d of the %d bit %s operand: %s' % (
+                           c, lo, hi, yv['w'], 'signed' if yv.get('sg') else 'unsigned', inside), nontrivial=not inside)
+                break
+        # a bool holds a truth value: compared with a character or number that is not a constant, one of the two was meant
+        # to be something else (char escaped -> bool escaped keeps "a quote is open" but loses WHICH quote)
+        def plain(y):
+            while True:
+                yv = fn.nodes[y]
+                if yv['k'] in ('ParenExpr', 'ImplicitCastExpr') and yv.get('ch') and yv.get('ck') in (None, 'IntegralCast', 'LValueToRValue', 'NoOp'):
+                    y = yv['ch'][0]
+                else:
+                    return y
+        for x, v in sorted(fn.nodes.items()):
+            if v['k'] != 'BinaryOperator' or v.get('op') not in ('==', '!='):
+                continue
+            a, b = plain(v['lhs']), plain(v['rhs'])
+            for p_, q_ in ((a, b), (b, a)):
+                pv, qv = fn.nodes[p_], fn.nodes[q_]
+                if pv.get('bool') and pv['k'] in ('DeclRefExpr', 'MemberExpr') and not qv.get('bool') and qv.get('w') and fn.val(q_) is None:
+                    n += 1
+                    ctx.touch(fn)
+                    ctx.ob(rid, fn, x, False, 'comparison %s' % fn.key(x)[:70],
+                           'the bool %s is compared with the %d bit value %s: a truth value equals only 0 or 1' % (fn.key(p_), qv['w'], fn.key(q_)[:40]))
+                    break
+    if n < minimum:
+        from facts import AnalysisBroken
+        raise AnalysisBroken('%s: only %d comparisons with constants found' % (rid, n))
+
+
+def getter_width_rule(ctx, rid, scope, minimum):
+    """an accessor hands out what the member holds: where a member function does nothing but return a data member of integer
+    type, its return type has the width and signedness of the member (or is wider) and no cast narrows the value on the
+    way.  A narrower return type truncates silently for exactly the values the callers compare against (replacement
+    patterns, limits, lengths)."""
+    fb = ctx.fb
+    seen = set()
+    n = 0
+    for fn in fb.functions:
+        if not scope(fn) or not fn.nodes or (fn.name, fn.sig) in seen or not fn.cls:
+            continue
+        seen.add((fn.name, fn.sig))
+        body = fn.nodes.get(fn.body, {})
+        ch = body.get('ch', [])
+        if body.get('k') != 'CompoundStmt' or len(ch) != 1 or fn.nodes[ch[0]]['k'] != 'ReturnStmt' or fn.nodes[ch[0]].get('val') is None:
+            continue
+        val = fn.nodes[ch[0]]['val']
+        top = fn.nodes[val]
+        y = val
+        casts = []
+        while True:
+            yv = fn.nodes[y]
+            if yv['k'] in ('ParenExpr', 'ImplicitCastExpr', 'CStyleCastExpr', 'CXXStaticCastExpr', 'CXXFunctionalCastExpr') and yv.get('ch'):
+                if yv.get('w'):
+                    casts.append((yv['w'], yv.get('sg')))
+                y = yv['ch'][0]
+            else:
+                break
+        m = fn.nodes[y]
+        if m['k'] != 'MemberExpr' or not m.get('this') or not m.get('w') or m.get('bool') or m.get('ptr'):
+            continue
+        t = m.get('t') or ''
+        if 'float' in t or 'double' in t or not top.get('w'):
+            continue
+        n += 1
+        ctx.touch(fn)
+        mw = m['w']
+        narrow = [w for w, sg in casts if w < mw] or (top['w'] < mw)
+        ctx.ob(rid, fn, val, not narrow, 'accessor %s returns %s' % (fn.name.split('::', 1)[1], m.get('name')),
+               'the %d bit member reaches the caller in at least %d bits: %s (return type %s)' % (mw, mw, not narrow, fn.d.get('ret')))
+    if n < minimum:
+        from facts import AnalysisBroken
+        raise AnalysisBroken('%s: only %d plain accessors found' % (rid, n))
+
+
+def byte_scale_rule(ctx, rid, scope, minimum):
+    """a byte is scaled in a domain that holds the result: where a function multiplies or shifts a value read from an 8 bit
+    unsigned variable (promoted to int by the language) in SIGNED 32 bit arithmetic, the other factor / the shift amount is a
+    constant that keeps 255 * factor below 2^31.  With a factor that can reach 2^24 (the fourth byte of a little-endian
+    number: byte * (1 << 8*i), byte << 24) the product of a byte >= 0x80 overflows the int, and on widening to a 64 bit
+    accumulator the sign is extended over the upper half.  Unsigned or 64 bit arithmetic is fine."""
+    fb = ctx.fb
+    seen = set()
+    n = 0
+    for fn in fb.functions:
+        if not scope(fn) or not fn.nodes or (fn.name, fn.sig) in seen:
+            continue
+        seen.add((fn.name, fn.sig))
+        for x, v in sorted(fn.nodes.items()):
+            if v['k'] != 'BinaryOperator' or v.get('op') not in ('*', '<<'):
+                continue
+
+            def byte_var(y):
+                yv = fn.nodes[y]
+                while yv['k'] in ('ParenExpr', 'ImplicitCastExpr') and yv.get('ch') and yv.get('ck') in (None, 'IntegralCast', 'LValueToRValue', 'NoOp'):
+                    y = yv['ch'][0]
+                    yv = fn.nodes[y]
+                return yv['k'] in ('DeclRefExpr', 'MemberExpr', 'ArraySubscriptExpr') and yv.get('w') == 8 and not yv.get('sg') and \
+                    not yv.get('bool') and yv.get('rk') != 'enumerator' and fn.val(y) is None
+            if v['op'] == '<<':
+                if not byte_var(v['lhs']):
+                    continue
+                other = v['rhs']
+            else:
+                if byte_var(v['lhs']):
+                    other = v['rhs']
+                elif byte_var(v['rhs']):
+                    other = v['lhs']
+                else:
+                    continue
+            n += 1
+            ctx.touch(fn)
+            signed32 = v.get('w') == 32 and v.get('sg')
+            c = fn.val(other)
+            if not signed32:
+                ok, how = True, 'evaluated in %d bit %s arithmetic' % (v.get('w') or 0, 'signed' if v.get('sg') else 'unsigned')
+            elif c is not None:
+                top = 255 * c if v['op'] == '*' else 255 << c if 0 <= c < 64 else 1 << 63
+                ok, how = top < (1 << 31), 'in int with the constant %d: at most %d' % (c, top)
+            else:
+                ok, how = False, 'in int with a factor that is not constant (%s)' % fn.key(other)[:40]
+            ctx.ob(rid, fn, x, ok, 'byte scaled: %s' % fn.key(x)[:60], 'the result fits the arithmetic it is computed in: %s (%s)' % (ok, how))
+    if n < minimum:
+        from facts import AnalysisBroken
+        raise AnalysisBroken('%s: only %d scalings of a byte found' % (rid, n))
+
+
+def _loop_counter_params(fn):
+    """[(for statement, parameter decl, [reads of the parameter behind the loop])] for loops that take a by-value parameter
+    over as their counter (assignment in the init part, no declaration)"""
+    res = []
+    pd = {p.get('decl'): p for p in fn.params if p.get('decl') and not (p.get('t') or '').rstrip().endswith(('&', '*'))}
+    asg = list(fn.assignments())
+    for f in fn.all('ForStmt'):
+        v = fn.nodes[f]
+        if v.get('init') is None:
+            continue
+        init = set(fn.walk(v['init']))
+        inside = set(fn.walk(f))
+        for nid, d, rhs, op, lhs in asg:
+            if nid in init and op != 'init':
+                reads = []
+                if d in pd:
+                    later = set(n2 for n2, d2, r2, o2, l2 in asg if d2 == d and n2 not in inside and o2 in ('=',))
+                    for x, xv in fn.nodes.items():
+                        if xv['k'] == 'DeclRefExpr' and xv.get('decl') == d and x not in inside and fn.block_of(x) is not None and \
+                                fn.block_of(f) is not None:
+                            par = fn.nodes.get(fn.parent(x), {})
+                            if par.get('k') == 'BinaryOperator' and par.get('op') == '=' and par.get('lhs') == x:
+                                continue
+                            # reachable from the loop without a fresh assignment in between
+                            if any(fn.reaches_point(fn.pos(i_)[0], fn.pos(x), later, start_idx=fn.pos(i_)[1] + 1) for i_ in [nid]):
+                                reads.append(x)
+                res.append((f, d if d in pd else None, reads))
+    return res
+
+
+def loop_counter_param_rule(ctx, rid, scope, minimum):
+    """an argument is still the argument where it is read: a for loop that takes a by-value parameter over as its counter
+    (for (p = first; ...; p++)) destroys the argument; a read of the parameter that control reaches behind such a loop sees
+    what the loop left, not what the caller passed (BusHandler::prepareScan decided the ownership of a scan request by
+    slave == SYN behind for (slave = 1; slave != 0; slave++)).  The rule is checked against a positive example on every
+    run."""
+    import os
+    import facts
+    from facts import AnalysisBroken
+    fb = ctx.fb
+    sample = os.path.join(os.path.dirname(os.path.dirname(os.path.dirname(os.path.abspath(__file__)))), 'spec', 'samples',
+                          'loop_counter_param.cpp')
+    try:
+        d = facts.extract_file(sample, root=os.path.dirname(sample))
+        sfb = facts.FactBase([(sample, d)])
+        hits = [r for f in sfb.functions for r in _loop_counter_params(f) if r[1] and r[2]]
+    except Exception as e:     # noqa
+        raise AnalysisBroken('%s: the positive example could not be analysed (%s)' % (rid, e))
+    if len(hits) != 1:
+        raise AnalysisBroken('%s: the positive example is not recognised any more (%d hits)' % (rid, len(hits)))
+    seen = set()
+    n = 0
+    for fn in fb.functions:
+        if not scope(fn) or not fn.blocks or (fn.name, fn.sig) in seen:
+            continue
+        seen.add((fn.name, fn.sig))
+        for f, pdcl, reads in _loop_counter_params(fn):
+            n += 1
+            if pdcl is None:
+                ctx.ob(rid, fn, f, True, 'loop counter assigned in the init part', 'not a parameter', nontrivial=False)
+                continue
+            ctx.touch(fn)
+            nm = pdcl.split(':')[-1]
+            if not reads:
+                ctx.ob(rid, fn, f, True, 'parameter %s taken over as loop counter' % nm, 'not read behind the loop')
+            for x in reads:
+                ctx.ob(rid, fn, x, False, 'parameter %s read behind a loop that used it as counter' % nm,
+                       'the read at line %d sees the value the loop at line %d left, not the argument' % (fn.line_of(x), fn.line_of(f)))
+    if n < minimum:
+        raise AnalysisBroken('%s: only %d loops with an assigned counter found' % (rid, n))
+
+
+def wide_result_rule(ctx, rid, scope, minimum):
+    """a 64 bit key or time stays 64 bit: where a function of the repository is declared to return uint64_t (message and answer
+    keys, the millisecond clock), the value is not converted implicitly to a narrower integer at the call - held in an
+    unsigned int, a key loses the ID length, source, destination and command bytes and never matches a stored key again."""
+    fb = ctx.fb
+    wide = {}
+    for f in fb.functions:
+        r = (f.d.get('ret') or '')
+        if r.replace('const ', '').strip() in ('uint64_t', 'unsigned long long', 'std::uint64_t', 'ebusd::uint64_t') and f.name.startswith('ebusd::'):
+            wide[f.name] = r
+    for cls in fb.classes.values():
+        pass
+    seen = set()
+    n = 0
+    for fn in fb.functions:
+        if not scope(fn) or not fn.nodes or (fn.name, fn.sig) in seen:
+            continue
+        seen.add((fn.name, fn.sig))
+        for c in fn.calls():
+            v = fn.nodes[c]
+            if v.get('callee') not in wide or v['k'] not in ('CallExpr', 'CXXMemberCallExpr'):
+                continue
+            n += 1
+            ctx.touch(fn)
+            x = c
+            narrowed = None
+            while True:
+                par = fn.parent(x)
+                if par is None:
+                    break
+                pv = fn.nodes[par]
+                if pv['k'] in ('ParenExpr', 'ExprWithCleanups', 'MaterializeTemporaryExpr', 'CXXBindTemporaryExpr'):
+                    x = par
+                    continue
+                if pv['k'] == 'ImplicitCastExpr' and pv.get('ck') == 'IntegralCast' and pv.get('w') and pv['w'] < 64:
+                    narrowed = pv['w']
+                break
+            ctx.ob(rid, fn, c, narrowed is None, 'result of %s in %s' % (v['callee'].split('::', 1)[1], fn.name.split('::', 1)[1]),
+                   'kept in 64 bit: %s%s' % (narrowed is None, '' if narrowed is None else ' (converted to %d bit)' % narrowed))
+    if n < minimum:
+        from facts import AnalysisBroken
+        raise AnalysisBroken('%s: only %d calls of functions returning uint64_t found' % (rid, n))
+
+
+def wide_mask_rule(ctx, rid, scope, minimum):
+    """a mask for a 64 bit value is computed in 64 bits: where a 64 bit integer is combined (&, |, ^ and their assignment
+    forms) with an operand that the compiler widens from 32 bits or less, that operand contains no shift or complement whose
+    value is not a compile-time constant - ~(0xff << n) in int is sign-extended for n < 24 but clears the upper half for
+    n = 24, and x << n loses the bits above 31."""
+    fb = ctx.fb
+    seen = set()
+    n = 0
+    for fn in fb.functions:
+        if not scope(fn) or not fn.nodes or (fn.name, fn.sig) in seen:
+            continue
+        seen.add((fn.name, fn.sig))
+        for x, v in sorted(fn.nodes.items()):
+            if v['k'] not in ('BinaryOperator', 'CompoundAssignOperator') or v.get('op') not in ('&', '|', '^', '&=', '|=', '^=') or v.get('w') != 64:
+                continue
+            n += 1
+            bad = None
+            for side in ('lhs', 'rhs'):
+                o = fn.nodes[v[side]]
+                while o['k'] == 'ParenExpr' and o.get('ch'):
+                    o = fn.nodes[o['ch'][0]]
+                if o['k'] == 'ImplicitCastExpr' and o.get('ck') == 'IntegralCast' and (o.get('sw') or 64) <= 32 and fn.val(o['ch'][0]) is None:
+                    for y in fn.walk(o['ch'][0]):
+                        yv = fn.nodes[y]
+                        if (yv['k'] == 'BinaryOperator' and yv.get('op') == '<<') or (yv['k'] == 'UnaryOperator' and yv.get('op') == '~'):
+                            bad = '%s is computed in %d bit and then widened' % (fn.key(o['ch'][0])[:60], o.get('sw'))
+            if bad:
+                ctx.touch(fn)
+            ctx.ob(rid, fn, x, bad is None, '64 bit combination %s' % fn.key(x)[:50],
+                   'no shifted or complemented operand of 32 bits or less: %s%s' % (bad is None, '' if bad is None else ' (%s)' % bad),
+                   nontrivial=bad is not None)
+    if n < minimum:
+        from facts import AnalysisBroken
+        raise AnalysisBroken('%s: only %d combinations of 64 bit values found' % (rid, n))
+
+
+_POSIX_MINUS1 = ('read', 'write', 'recv', 'send', 'recvfrom', 'sendto', 'poll', 'ppoll', 'select', 'open', 'socket', 'accept',
+                 'connect', 'bind', 'listen', 'ioctl', 'fcntl', 'lseek', 'tcgetattr', 'tcsetattr', 'setsockopt', 'getsockopt')
+
+
+def signed_result_rule(ctx, rid, scope, minimum):
+    """a failure reported as -1 must stay negative: the result of a POSIX call that reports errors as -1 (read, write, recv,
+    send, poll, open, socket, ioctl, ...) is not converted to an unsigned type where it is stored or compared - in a size_t
+    the failed read is SIZE_MAX received bytes and the test size <= 0 only sees end of file."""
+    fb = ctx.fb
+    seen = set()
+    n = 0
+    for fn in fb.functions:
+        if not scope(fn) or not fn.nodes or (fn.name, fn.sig) in seen:
+            continue
+        seen.add((fn.name, fn.sig))
+        for c in fn.all('CallExpr'):
+            v = fn.nodes[c]
+            cal = (v.get('callee') or '')
+            if cal.lstrip(':') not in _POSIX_MINUS1 or not v.get('sg'):
+                continue
+            n += 1
+            ctx.touch(fn)
+            x = c
+            unsigned_to = None
+            while True:
+                par = fn.parent(x)
+                if par is None:
+                    break
+                pv = fn.nodes[par]
+                if pv['k'] in ('ParenExpr', 'ExprWithCleanups'):
+                    x = par
+                    continue
+                if pv['k'] in ('ImplicitCastExpr', 'CStyleCastExpr', 'CXXStaticCastExpr') and pv.get('ck') == 'IntegralCast' and pv.get('w') and not pv.get('sg') \
+                        and not pv.get('bool'):
+                    # equality with the requested length is exact also after the conversion (-1 becomes SIZE_MAX, never the length)
+                    gp = fn.nodes.get(fn.parent(par), {})
+                    if not (gp.get('k') == 'BinaryOperator' and gp.get('op') in ('==', '!=')):
+                        unsigned_to = pv.get('t')
+                break
+            ctx.ob(rid, fn, c, unsigned_to is None, 'result of %s() in %s' % (cal.lstrip(':'), fn.name.split('::', 1)[-1]),
+                   'stays signed where it is first used: %s%s' % (unsigned_to is None, '' if unsigned_to is None else ' (converted to %s)' % unsigned_to))
+    if n < minimum:
+        from facts import AnalysisBroken
+        raise AnalysisBroken('%s: only %d calls of POSIX functions with a -1 error result found' % (rid, n))
